@@ -11,7 +11,12 @@ prop(
         "re-parse equal, parent laws) and joined with every word over the alphabet up to length 3 / 4; all ordered pairs of the accepted rsync URIs with |w| <= 6 / 7 "
         "and https URIs with |w| <= 4 / 5 (incl. scheme-case variants) are checked for == vs reference equality, hash, relative_to, is_parent_of "
         "(irreflexive, invariant under equal replacement), and every parent-of chain a>b>c inside the domain for transitivity; sampled triples; "
-        "random byte strings, every byte value at every position of six seed URIs, and random URI families (ancestors, trailing-slash and case variants, siblings) over the full permitted character set. "
+        "random byte strings, every byte value at every position of six seed URIs, and random URI families (ancestors, trailing-slash and case variants, siblings) over the full permitted character set; "
+        "size families: for every length L in {15,16,17,31,32,33,63,64,65,127,128,129,255,256,257,511,512,513,1023,1024,1025,4095,4096,4097}, for rsync authority / module / path and https authority / path, "
+        "once with the component L octets long and once with the text up to the end of the component L octets long, a base URI plus variants with ONE letter of the long component in the other case "
+        "at its first, second, middle and last letters and next to every such L counted from the start of the text, from the start of the component and from its end, plus all-upper / all-lower / random-case "
+        "components, scheme case, trailing slash, child, text-level parent and siblings one octet longer / shorter; each family runs the single-URI laws on every member, all ordered pairs "
+        "(== vs reference equality, hash, relative_to, is_parent_of), parent chains, and join with arguments of up to 600 octets (Miri: one family of three members per shard at text lengths 16 / 64 / 65). "
         "distinct_nontrivial = accepted URIs of the enumeration + related pairs (equal, relative_to is Some, or parent-of), each counted by exactly one shard, "
         "+ shape classes of the random parts; rejected strings count as evaluations only."
     ),
@@ -27,7 +32,7 @@ prop(
         "through parsing, parent and join plus all pairs and parent chains of a fixed list of 18 rsync and 12 https URIs, to watch from_utf8_unchecked and the index arithmetic; ASan a medium subset (|w| <= 5). The property is a finite conjunction of algebraic laws over strings, "
         "so exhaustive small-scope enumeration plus sampling beyond is the natural level; no claim is made for alphabets or lengths outside what was explored."
     ),
-    level_note="Small-scope: only 7 letters (one case pair, one other letter, slash, dot, colon, space) are enumerated; longer and richer URIs are sampled.",
+    level_note="Small-scope: only 7 letters (one case pair, one other letter, slash, dot, colon, space) are enumerated; longer and richer URIs are sampled, lengths up to about 4100 octets with case differences placed around powers of two.",
     technique="runtime oracle over bounded-exhaustive enumeration + random families, Miri/ASan on the same workload",
     design_ref="DESIGN.md §4 C12",
     exhaustive_scope=(
